@@ -3,6 +3,7 @@
 From Coq Require Import List NArith Bool. Import ListNotations.
 From BddVerif Require Import Model.Bdd Model.Apply Model.Ops Proofs.Sem Proofs.Canon Proofs.ApplySem Proofs.ApplyTop Proofs.TernSem Proofs.NotSem.
 From BddVerif Require Import Model.ApplyFast Proofs.ApplyFast.
+From BddVerif Require Model.ApplyStack Proofs.ApplyStack.
 Open Scope N_scope.
 
 (* binary_op / fused_binary_flip_op driven by any consistent partial-operator table: for valid operands
@@ -23,6 +24,25 @@ Theorem C01_fast_engine_refines : forall A B fa fb fo op,
   fused_binary_flip_op_fast A B fa fb fo op = fused_binary_flip_op A B fa fb fo op.
 Proof. exact fused_binary_flip_op_fast_eq. Qed.
 Print Assumptions C01_fast_engine_refines.
+
+(* the explicit-stack loop of apply_with_flip, modelled iteration by iteration (Model/ApplyStack.v: one sstep = one
+   pass through the `while let Some(on_stack) = stack.last()` body, same store record), computes exactly what the
+   recursive reference engine computes — for valid operands over the same variable count and any table that
+   answers on total inputs (no range condition on the flips, no consistency of the table) *)
+Theorem C01_stack_machine_refines : forall A B fa fb fo op,
+  wf A -> wf B -> nvars A = nvars B -> total2 op ->
+  ApplyStack.apply2_stack A B fa fb fo op = apply2 A B fa fb fo op.
+Proof. exact Proofs.ApplyStack.apply2_stack_eq. Qed.
+Print Assumptions C01_stack_machine_refines.
+
+(* hence the pointwise theorem holds of the stack machine verbatim *)
+Theorem C01_stack_machine_pointwise : forall A B fa fb fo op,
+  wf A -> wf B -> nvars A = nvars B -> flips_ok (nvars A) fa fb fo = true ->
+  total2 op -> consistent2 op ->
+  exists r, ApplyStack.fused_binary_flip_op_stack A B fa fb fo op = Ok r /\ Canonical r /\ nvars r = nvars A /\
+    forall v, eval r v = bop_of op (eval A (oflip fa (oflip fo v))) (eval B (oflip fb (oflip fo v))).
+Proof. exact Proofs.ApplyStack.fused_binary_flip_op_stack_correct. Qed.
+Print Assumptions C01_stack_machine_pointwise.
 
 (* eager (short-circuiting) and lazy tables of the same connective give the same result *)
 Theorem C01_eager_lazy_same : forall A B fa fb fo op1 op2',
@@ -82,3 +102,65 @@ Example C01_nonvacuous :
     Ok [mkNode 3 0 0; mkNode 3 1 1; mkNode 2 0 1; mkNode 2 1 0; mkNode 1 3 2; mkNode 0 2 4]%list.
 Proof. vm_compute. repeat split; reflexivity. Qed.
 Print Assumptions C01_nonvacuous.
+
+(* ---- the ternary ENGINE of the library (`ternary_apply`: its own explicit-stack loop over triples of pointers),
+   modelled order-faithfully in Model/Apply3.v — not replaced by a composition of binary applies ---- *)
+From BddVerif Require Import Model.Apply3 Proofs.Apply3Sem.
+
+(* the engine itself: for any table that is total on total inputs and consistent with a connective bop3 (it is also
+   consulted on PARTIAL inputs for early answers, like the Rust), the loop terminates within its fuel and returns the
+   canonical diagram of the pointwise function, the three input flips and the output flip acting as bit inversions *)
+Theorem C01_ternary_engine_pointwise : forall A B C fa fb fc fo (op : op3) (bop3 : bool -> bool -> bool -> bool),
+  wf A -> wf B -> wf C -> nvars A = nvars B -> nvars B = nvars C ->
+  (forall x, fa = Some x -> x < nvars A) ->
+  (forall x, fb = Some x -> x < nvars A) ->
+  (forall x, fc = Some x -> x < nvars A) ->
+  (forall a b c, op (Some a) (Some b) (Some c) = Some (bop3 a b c)) ->
+  (forall x y z r, op x y z = Some r ->
+     forall a b c, refines a x -> refines b y -> refines c z -> bop3 a b c = r) ->
+  exists r, apply3 A B C fa fb fc fo op = Some r /\ (Canonical r /\ nvars r = nvars A) /\
+    forall v, eval r v = bop3 (eval A (oflip fa (oflip fo v))) (eval B (oflip fb (oflip fo v)))
+                              (eval C (oflip fc (oflip fo v))).
+Proof. exact apply3_full. Qed.
+Print Assumptions C01_ternary_engine_pointwise.
+
+(* API level (variable-count and flip-bound panics included) *)
+Theorem C01_ternary_engine_api_pointwise : forall A B C fa fb fc fo op,
+  wf A -> wf B -> wf C -> nvars A = nvars B -> nvars B = nvars C ->
+  (flip_ok (nvars A) fa && flip_ok (nvars A) fb && flip_ok (nvars A) fc && flip_ok (nvars A) fo = true) ->
+  total3 op -> consistent3 op ->
+  exists r, fused_ternary_flip_op_faithful A B C fa fb fc fo op = Ok r /\ Canonical r /\ nvars r = nvars A /\
+    forall v, eval r v = conn3 op (eval A (oflip fa (oflip fo v))) (eval B (oflip fb (oflip fo v)))
+                                  (eval C (oflip fc (oflip fo v))).
+Proof. exact fused_ternary_flip_op_faithful_correct. Qed.
+Print Assumptions C01_ternary_engine_api_pointwise.
+
+(* the faithful engine and the compositional (I/O-equivalent) model return the same outcome — same array, same panics —
+   for every total consistent table; so every theorem above about fused_ternary_flip_op is a theorem about the engine *)
+Theorem C01_ternary_engine_eq_compositional : forall A B C fa fb fc fo op,
+  wf A -> wf B -> wf C -> total3 op -> consistent3 op ->
+  fused_ternary_flip_op_faithful A B C fa fb fc fo op = fused_ternary_flip_op A B C fa fb fc fo op.
+Proof. exact ternary_faithful_eq. Qed.
+Print Assumptions C01_ternary_engine_eq_compositional.
+
+Theorem C01_ternary_engine_if_then_else : forall A B C, wf A -> wf B -> wf C ->
+  if_then_else_faithful A B C = if_then_else A B C.
+Proof. exact if_then_else_faithful_eq. Qed.
+Print Assumptions C01_ternary_engine_if_then_else.
+
+(* the executable table check with which the driver decides when the two models are REQUIRED to agree *)
+Theorem C01_ternary_engine_table_check : forall op, table3_okb op = true -> total3 op /\ consistent3 op.
+Proof. exact table3_okb_sound. Qed.
+Print Assumptions C01_ternary_engine_table_check.
+
+Example C01_ternary_engine_nonvacuous :
+  let A := [mkNode 3 0 0; mkNode 3 1 1; mkNode 1 0 1; mkNode 0 0 2]%list in
+  let B := [mkNode 3 0 0; mkNode 3 1 1; mkNode 2 1 0]%list in
+  let C := [mkNode 3 0 0; mkNode 3 1 1; mkNode 2 0 1; mkNode 1 2 1]%list in
+  wfb A = true /\ wfb B = true /\ wfb C = true /\ table3_okb ite_function = true /\
+  fused_ternary_flip_op_faithful A B C (Some 1) None (Some 0) (Some 2) ite_function =
+    fused_ternary_flip_op A B C (Some 1) None (Some 0) (Some 2) ite_function /\
+  fused_ternary_flip_op_faithful A B C (Some 1) None (Some 0) (Some 2) ite_function =
+    Ok [mkNode 3 0 0; mkNode 3 1 1; mkNode 2 0 1; mkNode 1 2 1; mkNode 2 1 0; mkNode 1 4 1; mkNode 0 5 3]%list.
+Proof. vm_compute. repeat split; reflexivity. Qed.
+Print Assumptions C01_ternary_engine_nonvacuous.
